@@ -110,3 +110,41 @@ Fixpoint wf_idsb (n : Z) (evs : list ev) : bool :=
   | EFrame id _ _ :: t => (id =? n) && wf_idsb (n + 1) t
   | _ :: t => wf_idsb n t
   end.
+
+(* the continuous and test machines alone *)
+Fixpoint crun (c : pcfg) (s : cstate) (evs : list ev) : list (list out) :=
+  match evs with
+  | [] => []
+  | e :: t => let (s', o) := cstep c s e in o :: crun c s' t
+  end.
+
+Fixpoint trun (s : tstate) (evs : list ev) : list (list out) :=
+  match evs with
+  | [] => []
+  | e :: t => let (s', o) := tstep s e in o :: trun s' t
+  end.
+
+Fixpoint mfinal (c : pcfg) (s : mstate) (evs : list ev) : mstate :=
+  match evs with
+  | [] => s
+  | e :: t => mfinal c (fst (mstep c s e)) t
+  end.
+
+(* number of accepted frames in an event list *)
+Fixpoint nframes (evs : list ev) : Z :=
+  match evs with
+  | [] => 0
+  | EFrame _ _ _ :: t => 1 + nframes t
+  | _ :: t => nframes t
+  end.
+
+(* per-event concatenation of three output streams *)
+Fixpoint zip3 (a b c : list (list out)) : list (list out) :=
+  match a, b, c with
+  | x :: a', y :: b', z :: c' => (x ++ y ++ z) :: zip3 a' b' c'
+  | _, _, _ => []
+  end.
+
+(* the observable trace of a whole run: each event with its outputs *)
+Definition psteps (c : pcfg) (fm fc ft : list bool) (evs : list ev) : list (ev * list out) :=
+  combine evs (prun c (pinit c fm fc ft) evs).
